@@ -85,7 +85,7 @@ type CheckCtx struct {
 }
 
 func evSignature(ev M) string {
-	if ev["ev"] == "crash" || ev["ev"] == "fault" || ev["ev"] == "damage" {
+	if ev["ev"] == "crash" || ev["ev"] == "fault" || ev["ev"] == "damage" || ev["ev"] == "retry" {
 		return fmt.Sprintf("%v", ev)
 	}
 	a, ok := Argv(ev)
@@ -238,7 +238,7 @@ func (v *Violation) isFS() bool {
 		return false
 	}
 	e := v.Trace.Events[v.EvIdx]["ev"]
-	return e == "crash" || e == "fault" || e == "damage"
+	return e == "crash" || e == "fault" || e == "damage" || e == "retry"
 }
 
 // fsSignature identifies a crash point / fault position by what is stable across runs.
@@ -274,7 +274,7 @@ func (v *Violation) replayFileFS() *ReplayFile {
 	at := toInt(fe["at"])
 	n := -1
 	for _, ev := range v.Trace.Events {
-		if ev["ev"] == "crash" || ev["ev"] == "fault" {
+		if ev["ev"] == "crash" || ev["ev"] == "fault" || ev["ev"] == "retry" {
 			continue
 		}
 		n++
@@ -291,7 +291,10 @@ func (v *Violation) replayFileFS() *ReplayFile {
 	}
 	l := v.Chunk.Lines[v.Line-1]
 	rf.Extra = M{"mode": fe["ev"], "signature": fsSignature(l), "position": fe}
-	if fe["ev"] == "crash" {
+	if fe["ev"] == "retry" {
+		rf.Extra["mode"] = "crash"
+		rf.Note = fmt.Sprintf("kill the last command after its %v-th file-system modification (last op %v %v, next op %v %v), then give the same command again: clause %s fails on the state after the second run", fe["k"], l["last"].(M)["kind"], l["last"].(M)["name"], l["next"].(M)["kind"], l["next"].(M)["name"], v.Clause)
+	} else if fe["ev"] == "crash" {
 		rf.Note = fmt.Sprintf("kill the last command after its %v-th file-system modification (last op %v %v, next op %v %v): clause %s fails on the resulting state", fe["k"], l["last"].(M)["kind"], l["last"].(M)["name"], l["next"].(M)["kind"], l["next"].(M)["name"], v.Clause)
 	} else {
 		rf.Note = fmt.Sprintf("make %v #%v (%v) of the last command fail with %v: clause %s fails", fe["sys"], fe["ord"], fe["path"], fe["errno"], v.Clause)
@@ -491,9 +494,9 @@ func (cx *CheckCtx) finish(level string, rule string, assumptions []string) int 
 			if v.Trace != nil {
 				ev := v.Trace.Events[v.EvIdx]
 				k += " ev=" + fmt.Sprint(ev["ev"])
-				if ev["ev"] == "crash" || ev["ev"] == "fault" {
+				if ev["ev"] == "crash" || ev["ev"] == "fault" || ev["ev"] == "retry" {
 					l := v.Chunk.Lines[v.Line-1]
-					if ev["ev"] == "crash" {
+					if ev["ev"] == "crash" || ev["ev"] == "retry" {
 						k += fmt.Sprintf(" cmd=%v last=%v/%v next=%v/%v", l["cmd"].(M)["ev"], l["last"].(M)["kind"], l["last"].(M)["fclass"], l["next"].(M)["kind"], l["next"].(M)["fclass"])
 					} else {
 						k += fmt.Sprintf(" cmd=%v fault=%v/%v/%v res=%v", l["ev"], l["fault"].(M)["kind"], l["fault"].(M)["fclass"], l["fault"].(M)["errno"], l["res"])
